@@ -106,6 +106,22 @@ class SimFile:
             self.closed_by_sim = True
             self._st.ctl.file_closed(self)
 
+    def __del__(self):
+        # A handle that is dropped without close() is closed by its finaliser, as a real buffered file is:
+        # the final flush and the close happen then (still a fault point), and an error they raise is
+        # printed as "Exception ignored" and lost to the caller.
+        try:
+            if self._real.closed:
+                return
+            sim = getattr(self._st.ctl, 'sim', None)
+            if sim is not None and (sim.dead or sim.me() is None):
+                return
+            if self.owner is not None and not getattr(self.owner, 'alive', True):
+                return      # the owning process is dead: its buffers were dealt with by the kill
+            self.close()
+        except BaseException:
+            pass
+
     # -- reads
     def read(self, *a):
         self._st.ctl.file_op(self, 'read')
